@@ -2,18 +2,21 @@
 # ./check.sh <property> <quick|thorough>    or    ./check.sh <property> --replay <dir>
 # Rebuilds the harness (and what it needs) against /repo's current working tree with the
 # verif hooks enabled, then runs the check. Exit: 0 held, 1 violation, 2 inconclusive.
+# (VERIF_REPO / VERIF_BUILD / VERIF_EVIDENCE_DIR redirect it to a scratch worktree: only used to evaluate seeded changes.)
 set -u
 cd "$(dirname "$0")"
 export VERIF_DIR="$PWD"
 . ./env.sh
 PROP="${1:-}"; MODE="${2:-quick}"
 if [ -z "$PROP" ]; then echo "usage: $0 <property> <quick|thorough>|--replay <dir>"; exit 2; fi
-if ! ./build.sh "$PROP" > .build/build_$PROP.log 2>&1; then
-  echo "INCONCLUSIVE: build of /repo with hooks failed (see .build/build_$PROP.log)"; tail -5 .build/build_$PROP.log; exit 2
+BUILD="${VERIF_BUILD:-$PWD/.build}"
+mkdir -p "$BUILD"
+if ! ./build.sh "$PROP" > "$BUILD/build_$PROP.log" 2>&1; then
+  echo "INCONCLUSIVE: build of the repository with hooks failed (see $BUILD/build_$PROP.log)"; tail -5 "$BUILD/build_$PROP.log"; exit 2
 fi
 export VERIF_SCRATCH="${VERIF_SCRATCH:-$(mktemp -d /tmp/verif.XXXXXX)}"
 trap 'rm -rf "$VERIF_SCRATCH"' EXIT
 if [ "$MODE" = "--replay" ]; then
-  ./.build/vmon replay "${3:-}"; exit $?
+  "$BUILD/vmon" replay "${3:-}"; exit $?
 fi
-./.build/vmon check "$PROP" "$MODE"
+"$BUILD/vmon" check "$PROP" "$MODE"
